@@ -80,8 +80,10 @@ theorem rotate_table_perm (s : Gts.Seq) (n : Int) :
 /-- **features**: the re-located location denotes the same residues at their new positions
 `(x + n) mod L`, in the same order and strand — for every well-formed location with
 non-negative coordinates, every `0 ≤ n`, provided the translated location is in the domain of
-the Normalize law (`normOk`: no full-length part, no ambiguous span across the new origin) and
-rule K2 does not fire in either step. -/
+the Normalize law (`normOk`: every range / ambiguous span SHORTER than `L` — this excludes the
+bare whole-sequence range `source 1..L` too, for every `n`; its clause is `rotate_full_length` —
+and no ambiguous span across the new origin) and rule K2 does not fire in either step.
+FULL STATEMENT (without `normOk`): false, `rotate_den_full_refuted`. -/
 theorem rotate_den_partial (l : Loc) (n L : Int) (hL : 0 < L) (hn : 0 ≤ n)
     (hw : wf l = true) (hnn : nonneg l = true)
     (hok : normOk L (expand l 0 n) = true)
@@ -126,6 +128,109 @@ theorem full_length (s : Int) (p5 p3 : Bool) (L : Int) (hL : 0 < L) (hs : 0 ≤ 
     have f1 : ¬ (0 ≤ s ∧ s < 0 + s) := by omega
     have f2 : ¬ (0 < s + L ∧ s + L ≤ 0 + s) := by omega
     simp only [f1, f2, if_false]
+
+/-- `Expand(0, n)` (`0 ≤ n`) translates the whole-sequence range as a block: no clipping, no marker set -/
+theorem expand_full_length (p5 p3 : Bool) (n L : Int) (hL : 0 < L) (hn : 0 ≤ n) :
+    expand (ranged 0 L p5 p3) 0 n = ranged n (n + L) p5 p3 := by
+  simp only [expand, rangedExpand]
+  by_cases h0 : n = 0
+  · subst h0; simp
+  · rw [if_neg h0]
+    have c1 : (0 ≤ n ∧ (0:Int) ≤ 0) ∨ (n < 0 ∧ (0:Int) < 0) := Or.inl ⟨hn, by omega⟩
+    have c2 : (0 ≤ n ∧ (0:Int) < L) ∨ (n < 0 ∧ (0:Int) ≤ L) := Or.inl ⟨hn, hL⟩
+    have g1 : gmax 0 (0 + n) = n := by unfold gmax; split <;> omega
+    have g2 : gmax 0 (L + n) = n + L := by unfold gmax; split <;> omega
+    have f1 : ¬ (n < 0 ∧ (0:Int) ≤ 0 ∧ 0 < 0 - n) := by omega
+    have f2 : ¬ (n < 0 ∧ (0:Int) < L ∧ L ≤ 0 - n) := by omega
+    simp only [if_pos c1, if_pos c2, g1, g2, if_neg f1, if_neg f2]
+    rw [if_neg (by omega)]
+
+/-- **the full-length clause, both steps of Rotate** ("a full-length feature stays full-length"): the
+whole-sequence range `[0, L)` — the `source 1..L` feature of every GenBank record, which `normOk`
+excludes from `rotate_den_partial` for EVERY rotation amount — is, after `Expand(0, n)` and
+`Normalize(L)`, the SAME location `[0, L)` with the same partial markers; for every `0 < L` and every
+`0 ≤ n` (no other hypothesis, no K2 / marker guard). -/
+theorem rotate_full_length (p5 p3 : Bool) (n L : Int) (hL : 0 < L) (hn : 0 ≤ n) :
+    normalize (expand (ranged 0 L p5 p3) 0 n) L = ranged 0 L p5 p3 := by
+  rw [expand_full_length p5 p3 n L hL hn, full_length n p5 p3 L hL hn]
+
+/-- … and the complement-strand whole-sequence range `complement(1..L)` likewise -/
+theorem rotate_full_length_compl (p5 p3 : Bool) (n L : Int) (hL : 0 < L) (hn : 0 ≤ n) :
+    normalize (expand (compl (ranged 0 L p5 p3)) 0 n) L = compl (ranged 0 L p5 p3) := by
+  have := rotate_full_length p5 p3 n L hL hn
+  simp only [expand] at this
+  simp only [expand, normalize, this]
+
+/-- "is the whole-sequence range of a sequence of length `L`, on either strand" (decidable) -/
+def fullLength (L : Int) : Loc → Bool
+  | ranged s e _ _ => decide (s = 0) && decide (e = L)
+  | compl (ranged s e _ _) => decide (s = 0) && decide (e = L)
+  | _ => false
+
+/-- the two theorems above in one: a whole-sequence range (either strand, any markers) is a fixed
+point of the two steps of Rotate, for every `0 ≤ n` -/
+theorem rotate_full_length_loc (l : Loc) (n L : Int) (hL : 0 < L) (hn : 0 ≤ n)
+    (hf : fullLength L l = true) : normalize (expand l 0 n) L = l := by
+  match l, hf with
+  | ranged s e p5 p3, hf =>
+      simp only [fullLength, Bool.and_eq_true, decide_eq_true_eq] at hf
+      obtain ⟨rfl, rfl⟩ := hf
+      exact rotate_full_length p5 p3 n _ hL hn
+  | compl (ranged s e p5 p3), hf =>
+      simp only [fullLength, Bool.and_eq_true, decide_eq_true_eq] at hf
+      obtain ⟨rfl, rfl⟩ := hf
+      exact rotate_full_length_compl p5 p3 n _ hL hn
+
+/-- what the clause means for the residues: the rotated whole-sequence range denotes the same SET
+of residues as the rotated positions `(x + n) mod L` of the original (all of `[0, L)`, forward
+strand) — but read from position 0, not from `n mod L`: the reading start is lost, which is what
+the property's own clause "a full-length feature stays full-length" prescribes (see
+`rotate_den_full_refuted`: the ORDER law of `rotate_den_partial` fails here). -/
+theorem rotate_full_length_same_set (p5 p3 : Bool) (n L : Int) (hL : 0 < L) (hn : 0 ≤ n) (p : Pos) :
+    p ∈ den (normalize (expand (ranged 0 L p5 p3) 0 n) L) ↔
+      p ∈ mapPos (rotMap n L) (den (ranged 0 L p5 p3)) := by
+  rw [rotate_full_length p5 p3 n L hL hn]
+  simp only [den_ranged, mapPos, fwd, List.map_map, List.mem_map, mem_irange, Function.comp]
+  constructor
+  · rintro ⟨x, ⟨h0, h1⟩, rfl⟩
+    refine ⟨(x - n) % L, ⟨Int.emod_nonneg _ (by omega), ?_⟩, ?_⟩
+    · have := Int.emod_lt_of_pos (x - n) hL; omega
+    · simp only [rotMap]
+      rw [Int.emod_add_emod, show x - n + n = x by omega, Int.emod_eq_of_lt h0 (by omega)]
+  · rintro ⟨x, ⟨h0, h1⟩, rfl⟩
+    refine ⟨rotMap n L x, ⟨Int.emod_nonneg _ (by omega), ?_⟩, rfl⟩
+    have := Int.emod_lt_of_pos (x + n) hL
+    simp only [rotMap]; omega
+
+/-- FULL STATEMENT of `rotate_den_partial` without `normOk` (false on the model, and on the code):
+"for every well-formed location with non-negative coordinates on which K2 does not fire, the
+re-located location denotes the residues at `(x + n) mod L` IN THE SAME ORDER".  Witness: the
+whole-sequence range `1..3` of a circle of 3 rotated by 1: the code answers `1..3` (residues
+0,1,2) where the order law wants 1,2,0.  This is not a defect: it is what the property's own
+clause "a full-length feature stays full-length" prescribes; the statements that DO hold for
+this shape are `rotate_full_length` (same location) and `rotate_full_length_same_set` (same set
+of residues). -/
+theorem rotate_den_full_refuted :
+    ¬ (∀ (l : Loc) (n L : Int), 0 < L → 0 ≤ n → wf l = true → nonneg l = true →
+        expandAbs l 0 n = false → normalizeAbs (expand l 0 n) L = false →
+        den (normalize (expand l 0 n) L) ≼ mapPos (rotMap n L) (den l)) := by
+  intro h
+  have := h (ranged 0 3 false false) 1 3 (by decide) (by decide) (by decide) (by decide) (by decide) (by decide)
+  have hs := this.1
+  revert hs
+  decide
+
+/-- non-vacuity: `source <1..12>` on a circle of 12, rotation by 5 — outside `normOk`, inside the
+new clause; and `normOk` fails for this shape whatever the amount -/
+example : fullLength 12 (ranged 0 12 true true) = true ∧ fullLength 12 (compl (ranged 0 12 false false)) = true ∧
+    normOk 12 (expand (ranged 0 12 true true) 0 5) = false ∧
+    (normalize (expand (ranged 0 12 true true) 0 5) 12).beq (ranged 0 12 true true) = true ∧
+    (expand (ranged 0 12 true true) 0 5).beq (ranged 5 17 true true) = true := by decide
+example (p5 p3 : Bool) (n L : Int) (hL : 0 < L) (hn : 0 ≤ n) :
+    normOk L (expand (ranged 0 L p5 p3) 0 n) = false := by
+  rw [expand_full_length p5 p3 n L hL hn]
+  simp only [normOk, Bool.and_eq_false_iff, decide_eq_false_iff_not]
+  right; omega
 
 /-- composition of the position maps: rotations compose additively, a multiple of `L` is the
 identity, `-n` undoes `n` (hence the same laws for residues and denotations) -/
@@ -205,6 +310,25 @@ theorem rotate_feature_partial (s : Gts.Seq) (n : Int) (hL : 0 < s.len) (f : Fea
 /-- nothing is lost or added -/
 theorem rotate_feature_count (s : Gts.Seq) (n : Int) : (s.rotate n).feats.length = s.feats.length := by
   simpa using (rotate_table_perm s n).length_eq
+
+/-- **Rotate, record level, the full-length clause**: for every `n` (any sign and magnitude) a
+feature of a non-empty record whose location is the whole-sequence range (`source 1..L`, either
+strand, any partial markers) is a feature of the rotated record UNCHANGED — same key, same
+qualifiers, same location, same markers.  No guard: this is the clause that `normOk` keeps out of
+`rotate_feature_partial`. -/
+theorem rotate_full_length_feature (s : Gts.Seq) (n : Int) (hL : 0 < s.len) (f : Feature)
+    (hf : f ∈ s.feats) (hfl : fullLength s.len f.loc = true) : f ∈ (s.rotate n).feats := by
+  have hr : 0 ≤ rotN n s.len := by rw [rotN_eq_emod n s.len hL]; exact Int.emod_nonneg _ (by omega)
+  have h := mem_of_perm_map (rotate_table_perm s n) hf
+  rw [rotate_full_length_loc f.loc (rotN n s.len) s.len hL hr hfl] at h
+  exact h
+
+/-- non-vacuity: the `source` feature of a six-residue record, rotation by -8 -/
+example : 0 < (⟨[⟨"source", ranged 0 6 false false, []⟩], [65, 67, 71, 84, 65, 67]⟩ : Gts.Seq).len ∧
+    fullLength (⟨[⟨"source", ranged 0 6 false false, []⟩], [65, 67, 71, 84, 65, 67]⟩ : Gts.Seq).len
+      (ranged 0 6 false false) = true ∧
+    ((⟨[⟨"source", ranged 0 6 false false, []⟩], [65, 67, 71, 84, 65, 67]⟩ : Gts.Seq).rotate (-8)).bytes
+      = [71, 84, 65, 67, 65, 67] := by decide
 
 /-! ### partial markers stay on the outer ends; all coordinates lie in `[0, L]`
 
